@@ -59,6 +59,10 @@ struct JSON {
         ~JSONParser()                             = delete;
 
         static ValueT Parse(Stream_T &stream, const Char_T *content, SizeT length) {
+            // The stream is scratch space for un-escaping. A rejected document can leave a partly
+            // un-escaped string in it, which must not end up in front of this document's first string.
+            stream.Clear();
+
             if (length != 0) {
                 SizeT offset = 0;
                 StringUtils::TrimLeft(content, offset, length);
